@@ -1,11 +1,14 @@
 #!/bin/bash
 # usage: tools/seedbatch.sh C02 C04 ...   evaluates seed a and b of each property sequentially
+# SEEDROOT (default /tmp/seed) holds the worktrees wt-<ID>; SEEDTAG (default empty) is put in front of the variant in the name
 here=$(cd "$(dirname "$0")" && pwd)
+root=${SEEDROOT:-/tmp/seed}
+tag=${SEEDTAG:-}
 for id in "$@"; do
   for v in a b; do
-    if [ -d /tmp/seed/wt-$id/seed/$v ] || [ -d /tmp/seed/out/$id/$v ]; then
-      echo "=== $id-$v $(date +%H:%M:%S)"
-      python3 "$here/seedeval.py" /tmp/seed/wt-$id $v $id 14000 2>&1 | tail -25
+    if [ -d $root/wt-$id/seed/$v ] || [ -d $root/out/$id/$v ]; then
+      echo "=== $id-$tag$v $(date +%H:%M:%S)"
+      python3 "$here/seedeval.py" $root/wt-$id $v $id 14000 --name $id-$tag$v 2>&1 | tail -25
     fi
   done
 done
